@@ -250,6 +250,9 @@ var singletonTypes = map[string]bool{
 	"CropSharedVars": true, "InputSharedVars": true, "CropOutputVars": true,
 }
 
+// allPhis: every join atom created by any walk (φ keys are unique per walk through the walk's counter base and name)
+var allPhis = map[string][]PhiArm{}
+
 type Exec struct {
 	P       *Prog
 	Pkg     *packages.Package
@@ -1101,6 +1104,7 @@ func (x *Exec) merge(base *State, sts []*State, scope ast.Node) []*State {
 				x.Phis = map[string][]PhiArm{}
 			}
 			x.Phis[pa.Key] = []PhiArm{{Val: a, Guards: mGuards, Has: okA}, {Val: b, Guards: o.guards, Has: okB}}
+			allPhis[pa.Key] = x.Phis[pa.Key]
 			m.vars[k] = PAtom(pa)
 		}
 		// cells
@@ -1144,6 +1148,7 @@ func (x *Exec) merge(base *State, sts []*State, scope ast.Node) []*State {
 					x.Phis = map[string][]PhiArm{}
 				}
 				x.Phis[ca.Key] = []PhiArm{{Val: a.val, Guards: mGuards, Has: okA}, {Val: b.val, Guards: o.guards, Has: okB}}
+				allPhis[ca.Key] = x.Phis[ca.Key]
 				ma[k] = cellVal{idx: idx, val: PAtom(ca)}
 			}
 		}
